@@ -108,6 +108,10 @@ func httpParseResponseLine(line []byte) (resp httpResponseLine, err error) {
 		return resp, ErrMalformedResponse
 	}
 
+	// status-code = 3DIGIT: "0101" is not 101.
+	if len(status) != 3 {
+		return resp, ErrMalformedResponse
+	}
 	var convErr error
 	resp.status, convErr = asciiToInt(status)
 	if convErr != nil {
